@@ -1,7 +1,8 @@
 (* C13 - Low-level range scans agree with the full scan and the comparison
    order.  Property theorems only; proofs are in Proofs/. *)
 From SQ Require Import Model.Base Model.Record Model.Btree Model.Cmp Model.Low
-     Spec.Flat Spec.Deliver Proofs.SearchP Proofs.BtreeMinP Proofs.DeliverP Proofs.LowP Proofs.ScanP.
+     Spec.Flat Spec.Deliver Spec.Order Proofs.SearchP Proofs.BtreeMinP Proofs.DeliverP Proofs.LowP Proofs.ScanP Proofs.CmpP Proofs.SortedP.
+From Coq Require Import Sorting.Sorted.
 
 (* generic in the tree: the from-key traversal (with Go's sort.Search
    bisection at every page, entries stored in interior pages, at every depth
@@ -53,3 +54,21 @@ Theorem C13_scan_min_collect : forall pg op npages root from l,
   index_scan_min pg op npages _ root from (stop_after None) [] = (Continue, rev (drop_lt (search from) l)).
 Proof. exact index_scan_min_all. Qed.
 Print Assumptions C13_scan_min_collect.
+
+(* the monotonicity hypothesis, derived from C11: on an index sorted entry to entry by its own
+   order, Search(key) is false* true* for every key carrying the index's collations and
+   directions on a prefix of its columns, so ScanMin returns exactly the entries not less than
+   the key - the filter of the full scan *)
+Theorem C13_sorted_mono : forall cols k l, key_matches cols k ->
+  Forall (fun kc => storable (kv kc)) k -> Forall (Forall storable) l ->
+  Sorted (fun r1 r2 => cle (rcmp cols r1 r2)) l -> mono (search k) l.
+Proof. intros cols k l Hm Hk Hl Hs. eapply three_runs_mono. exact (sorted_index_three_runs cols k l Hm Hk Hl Hs). Qed.
+Print Assumptions C13_sorted_mono.
+
+Theorem C13_scan_min_sorted : forall pg op npages root cols l,
+  index_rows pg op npages root = (l, None) -> Forall (Forall storable) l ->
+  Sorted (fun r1 r2 => cle (rcmp cols r1 r2)) l ->
+  forall from, key_matches cols from -> Forall (fun kc => storable (kv kc)) from ->
+  index_scan_min pg op npages _ root from (stop_after None) [] = (Continue, rev (filter (search from) l)).
+Proof. exact scan_min_sorted. Qed.
+Print Assumptions C13_scan_min_sorted.
